@@ -127,8 +127,10 @@ def run(db, chk) -> None:
         okst = okst and key == "weight" and lit(n.value) == 0 and neg_guard
     chk.ob("C09.R1-key-agreement", "validation overwrites an edge weight only with 0 and only under the negative-weight guard", okst, m.loc(v), found=det, accepted=[("weight", "0", "e.weight <= -1 and ...")],
            why="writing the stored CPEdge weight back on every edge silently undoes a what-if re-weighting before the path is recomputed")
-    obj_reads = [n for n in ast.walk(f) if isinstance(n, ast.Subscript) and lit(n.slice) == "object"]
-    chk.ob("C09.R1-key-agreement", "critical edges are read back from the 'object' attribute written by _add_edge", wkeys.get("object") == "edge" and len(obj_reads) >= 1, where,
+    # (private helpers and generator helpers of critical_path are read as if written out in place)
+    f_in = H.inline_helpers(m, f, exclude=("_validate_graph",))
+    obj_reads = [n for n in ast.walk(f_in) if isinstance(n, ast.Subscript) and lit(n.slice) == "object"]
+    chk.ob("C09.R1-key-agreement", "critical edges are read back from the 'object' attribute written by _add_edge", (wkeys.get("object") == "edge") if obj_reads or wkeys.get("object") != "edge" else None, where,
            found={"written": wkeys.get("object"), "reads": len(obj_reads)}, accepted="object=edge ... self.edges[u, v]['object']")
     # ---------------------------------------------------------------- R2 derivation of the sets
     ev = [val for t, val, s in H.assignments(f) if H.is_self_attr(t, "critical_path_events_set")]
@@ -136,7 +138,7 @@ def run(db, chk) -> None:
         and H.is_self_attr(ev[0].generators[0].iter, "critical_path_nodes") and not ev[0].generators[0].ifs and H.name_id(ev[0].generators[0].target) == "nid"
     chk.ob("C09.R2-derivation", "critical events = the events of ALL nodes of the path", okev, where, found=[ast.unparse(e) for e in ev], accepted="{self.node_list[nid].ev_idx for nid in self.critical_path_nodes}")
     # consecutive pairs
-    form = _pair_form(f)
+    form = _pair_form(f_in)
     chk.ob("C09.R2-derivation", "critical edges = the graph edges between CONSECUTIVE nodes of the path, each read from 'object'", form["ok"], where, found=form["found"],
            accepted="u = first; for each next v: add(self.edges[u, v]['object']); u = v   |   for u, v in zip(path, path[1:])")
     check_reset_before_accumulate(db, chk, "C09.R3-reset-before-accumulate")
@@ -156,6 +158,7 @@ def run(db, chk) -> None:
     chk.ob("C09.R5-always-recomputed", "every call recomputes the longest path on the current graph: no condition, memo or early return in front of the computation (validation failure raises)", not guards and not early, where,
            found={"conditions": guards, "early_returns": [r.lineno for r in early]}, accepted="unconditional nx.dag_longest_path after validation",
            why="a memo keyed on counts / total weight keeps the stale path after a what-if re-weighting that moves weight between edges")
+    _result_writers(db, chk)
     # ---------------------------------------------------------------- R4 validation dominates (shared with C08)
     c08._validation(db, _Prefixed(chk, "C09.R4-validation"), m)
     chk.floor("C09.R1-key-agreement", 5)
@@ -243,3 +246,60 @@ def _pair_form(f):
                 return {"ok": False, "found": ["pairs filtered by " + ast.unparse(filt[0].ifs[0])[:80]]}
             return {"ok": len(objs) == 1, "found": [ast.unparse(n)]}
     return {"ok": None, "found": ["pairing idiom not recognised"]}
+
+
+RESULT_ATTRS = ("critical_path_nodes", "critical_path_edges_set", "critical_path_events_set")
+RESULT_WRITERS = ("CPGraph.__init__", "CPGraph.critical_path", "restore_cpgraph")          # constructor, the computation, re-installation of saved members
+_INPLACE = {"add", "update", "discard", "remove", "clear", "pop", "append", "extend", "insert", "sort", "reverse", "difference_update", "intersection_update", "symmetric_difference_update"}
+
+
+def _result_writers(db, chk, rule="C09.R6-result-writers") -> None:
+    """who-may-write: the three members that REPORT the path (nodes, events, edges) are written by the computation alone; every other function of the
+    package only reads them - directly or through a local alias (an in-place operator on an alias, `edges -= {...}`, edits the graph's own set)."""
+    n_reads = 0
+    cpm = db.mod(CP)
+    allowed = set()          # the three writers and the private helpers they call (e.g. a method of the saved-data class that re-installs the members)
+    for w in RESULT_WRITERS:
+        for g in H.with_private_callees(cpm, cpm.func(w)):
+            allowed.add(cpm.qualname_of(g))
+    for mname, mod in sorted(db.modules.items()):
+        if not mname.startswith("hta"):
+            continue
+        for q, f in sorted(mod.functions.items()):
+            if mod.enclosing_function(f) is not None:
+                continue          # nested functions are walked with their parent
+            f = H.inline_helpers(mod, f) if mname == CP and q not in allowed else f
+            own = [w for w in allowed if mname == CP and (q == w or q.startswith(w + "."))]
+            aliases = {}
+            for t, v, st_ in H.assignments(f):
+                if isinstance(t, ast.Name) and isinstance(v, ast.Attribute) and v.attr in RESULT_ATTRS:
+                    aliases[t.id] = v.attr
+            writes = []
+            for n in ast.walk(f):
+                if isinstance(n, ast.Attribute) and n.attr in RESULT_ATTRS:
+                    n_reads += 1
+                tg = []
+                if isinstance(n, ast.Assign):
+                    tg = n.targets
+                elif isinstance(n, (ast.AugAssign, ast.AnnAssign)) and getattr(n, "value", None) is not None:
+                    tg = [n.target]
+                for t in tg:
+                    if isinstance(t, ast.Attribute) and t.attr in RESULT_ATTRS:
+                        writes.append((t.attr, " ".join(ast.unparse(n).split())[:100], n))
+                    elif isinstance(n, ast.AugAssign) and isinstance(t, ast.Name) and t.id in aliases:
+                        writes.append((aliases[t.id], " ".join(ast.unparse(n).split())[:100] + f"   [{t.id} is {aliases[t.id]}]", n))
+                    elif isinstance(t, ast.Subscript) and ((isinstance(t.value, ast.Attribute) and t.value.attr in RESULT_ATTRS) or (isinstance(t.value, ast.Name) and t.value.id in aliases)):
+                        writes.append((getattr(t.value, "attr", None) or aliases[t.value.id], " ".join(ast.unparse(n).split())[:100], n))
+                if isinstance(n, ast.Call) and isinstance(n.func, ast.Attribute) and n.func.attr in _INPLACE:
+                    r = n.func.value
+                    if isinstance(r, ast.Attribute) and r.attr in RESULT_ATTRS:
+                        writes.append((r.attr, " ".join(ast.unparse(n).split())[:100], n))
+                    elif isinstance(r, ast.Name) and r.id in aliases:
+                        writes.append((aliases[r.id], " ".join(ast.unparse(n).split())[:100] + f"   [{r.id} is {aliases[r.id]}]", n))
+            if own:
+                continue
+            for attr, txt, node in writes:
+                chk.ob(rule, f"{mname}:{q} only READS the reported path ({attr})", False, mod.loc(node), found=txt, accepted=f"written by {', '.join(RESULT_WRITERS)} only",
+                       why="an edit of the graph's own set (e.g. filtering it in place while drawing an overlay) makes the reported edges differ from the edges of the computed path")
+    chk.ob(rule, "the reported path members are written by the constructor, critical_path() and restore only (all other sites of the package read them)", True if n_reads >= 12 else None, CP, found=f"{n_reads} sites inspected",
+           accepted=">= 12 sites, no writer outside the three")
